@@ -24,8 +24,10 @@ structure SWatcher where
   kind : String                      -- "mcaller" | "bound"
   owner : Nat
   method : String
-  changed : Option (List (String × Option (List String)))
+  changed : Option (List (String × Option (List String)))      -- sub-paths dotted: "leaf.x"
   precedence : Int
+  /-- `(label of the object, attribute)` of the parent-notification callback -/
+  callback : Option (Nat × Option String) := Option.none
   deriving DecidableEq, Repr
 
 structure SDyn where
@@ -87,7 +89,8 @@ def childrenOf (w : World) (o : Nat) : List Nat :=
     | Option.none => []
     | some c =>
       let ofVal : Option Val → List Nat := fun v => match v with | some (.obj x) => [x] | _ => []
-      let ofW : Watcher → List Nat := fun wt => [wt.inst, wt.fn.owner]
+      let ofW : Watcher → List Nat := fun wt =>
+        [wt.inst, wt.fn.owner] ++ (match wt.fn.callback with | some cb => [cb.1] | Option.none => [])
       c.params.flatMap (fun d => ofVal (w.getVal o d.name)) ++
       c.params.flatMap (fun d => ((lookup ob.watchers d.name).getD []).flatMap ofW) ++
       c.params.flatMap (fun d => (((lookup ob.pcopies d.name).map (·.swatchers)).getD []).flatMap ofW) ++
@@ -128,6 +131,14 @@ def renderVal (w : World) (order corder : List Nat) : Val → SVal
   | .cell c => .cell (labelOf corder c) (deref w.cells c)
   | .obj o => .obj (labelOf order o)
 
+def renderChanged (ch : Option (List (String × Option (List (List String))))) : Option (List (String × Option (List String))) :=
+  ch.map fun d => d.map fun (n, sp) => (n, sp.map fun paths => paths.map fun path => ".".intercalate path)
+
+def renderW (order : List Nat) (wt : Watcher) : SWatcher :=
+  { inst := labelOf order wt.inst, kind := match wt.fn.kind with | .mcaller => "mcaller" | .bound => "bound" | .partialFn => "partial",
+    owner := labelOf order wt.fn.owner, method := wt.fn.method, changed := renderChanged wt.fn.changed,
+    precedence := wt.precedence, callback := wt.fn.callback.map fun cb => (labelOf order cb.1, cb.2) }
+
 def kindName : CKind → String
   | .mcaller => "mcaller" | .bound => "bound" | .partialFn => "partial"
 
@@ -142,9 +153,7 @@ def renderObj (w : World) (order corder : List Nat) (o : Nat) : SObj :=
         values := c.params.filterMap (fun d => (w.getVal o d.name).map fun v =>
           (d.name, (lookup ob.values d.name).isSome, renderVal w order corder v)),
         pcopies := c.params.filterMap (fun d => (lookup ob.pcopies d.name).map fun pc =>
-          (d.name, pc.bounds, pc.constant, pc.swatchers.map fun wt =>
-            { inst := labelOf order wt.inst, kind := kindName wt.fn.kind, owner := labelOf order wt.fn.owner,
-              method := wt.fn.method, changed := wt.fn.changed, precedence := wt.precedence })),
+          (d.name, pc.bounds, pc.constant, pc.swatchers.map (renderW order))),
         sel := c.params.filterMap (fun d =>
           if d.sel = .notSel then Option.none else
           match (lookup ob.pcopies d.name).bind (·.slots), w.clsSlot ob.cls d.name with
@@ -154,15 +163,13 @@ def renderObj (w : World) (order corder : List Nat) (o : Nat) : SObj :=
         attrs := (sortStr ob.attrs).map (fun kv => (kv.1, renderVal w order corder kv.2)),
         watchers := c.params.filterMap (fun d =>
           match lookup ob.watchers d.name with
-          | some (wt :: ws) => some (d.name, (wt :: ws).map fun wt =>
-              { inst := labelOf order wt.inst, kind := kindName wt.fn.kind, owner := labelOf order wt.fn.owner,
-                method := wt.fn.method, changed := wt.fn.changed, precedence := wt.precedence })
+          | some (wt :: ws) => some (d.name, (wt :: ws).map (renderW order))
           | _ => Option.none),
         dyn := c.methods.filterMap (fun m =>
           match lookup ob.dyn m.name with
           | some (wt :: ws) => some (m.name, (wt :: ws).map fun wt =>
               { inst := labelOf order wt.inst, owner := labelOf order wt.fn.owner, method := wt.fn.method,
-                changed := wt.fn.changed,
+                changed := renderChanged wt.fn.changed,
                 found := wt.names.all fun n =>
                   (((w.objs[wt.inst]?).bind (fun io => lookup io.watchers n)).getD []).contains wt })
           | _ => Option.none) }
@@ -194,7 +201,9 @@ def valOKB (no nc : Nat) : Val → Bool
   | .cell c => decide (c < nc)
   | _ => true
 
-def watcherOKB (no : Nat) (wt : Watcher) : Bool := decide (wt.inst < no) && decide (wt.fn.owner < no)
+def watcherOKB (no : Nat) (wt : Watcher) : Bool :=
+  decide (wt.inst < no) && decide (wt.fn.owner < no) &&
+  (match wt.fn.callback with | some cb => decide (cb.1 < no) | Option.none => true)
 
 def objOKB (no nc : Nat) (ob : Obj) : Bool :=
   ob.values.all (fun kv => valOKB no nc kv.2) && ob.attrs.all (fun kv => valOKB no nc kv.2) &&
@@ -212,6 +221,11 @@ def ownWatchersB (w : World) : Bool :=
     match w.objs[i]? with
     | some ob => ob.watchers.all fun kv => kv.2.all fun wt => wt.inst == i
     | Option.none => true
+
+/-- no list of registered watchers holds two equal watchers: then "the same watcher object" (what the batched
+dispatch asks) and "an equal watcher" coincide -/
+def noDupB (w : World) : Bool :=
+  w.objs.all fun ob => ob.watchers.all fun kv => decide kv.2.Nodup
 
 /-! ### the oracle -/
 
